@@ -9,11 +9,20 @@ def system_level(ctx, binary, projects, limit):
     todo = projects[:limit]
     tmo = 8 if ctx.quick() else 20
 
+    import zlib
+
     def one(proj):
         d = programs.materialize(proj, base)
-        e = proj["entry"]
+        e0 = proj["entry"]
+        # the entry path is spelled plain / with a leading `./` / absolute, the same way for both commands
+        how = zlib.crc32(proj["name"].encode()) % 3
+        e = e0 if how == 0 else ("./" + e0 if how == 1 else None)
+        if e is None:
+            e = os.path.join(d, e0)
         r1 = programs.run_bin(binary, ["run", e, "-q"], d, {"MSCRIPT_VERIF_DUMP": os.path.join(d, "dump1")}, timeout=tmo)
         d2 = programs.materialize(proj, base)
+        if how == 2:
+            e = os.path.join(d2, e0)
         c = programs.run_bin(binary, ["compile", e, "--quick"], d2)
         r2 = None
         if r1[0] == 124:
@@ -88,6 +97,13 @@ def failing_and_colliding_programs():
         "mk1 = fn() -> int {\n  class Box {\n    constructor(self) {}\n    fn size(self) -> int { return 1 }\n  }\n  return Box().size()\n}\n"
         "mk2 = fn() -> int {\n  class Box {\n    constructor(self) {}\n    fn size(self) -> int { return 2 }\n  }\n  return Box().size()\n}\n"
         "print mk1()\nprint mk2()\n"}})
+    out.append({"name": "self:method-constructs-its-own-class", "entry": "main.ms", "files": {"main.ms":
+        "class Counter {\n  n: int\n  constructor(self, n: int) {\n    self.n = n\n  }\n  fn next(self) -> Self {\n    return Self(self.n + 1)\n  }\n}\n"
+        "c = Counter(1)\nprint c.n\nd = c.next()\nprint d.n\nprint (d.next()).n\n"}})
+    out.append({"name": "self:method-constructs-its-own-class-b", "entry": "main.ms", "files": {"main.ms":
+        "class P {\n  v: int\n  constructor(self, v: int) {\n    self.v = v\n  }\n  fn twice(self) -> Self {\n    return Self(self.v * 2)\n  }\n}\nprint ((P(3)).twice()).v\n"}})
+    out.append({"name": "self:method-constructs-its-own-class-c", "entry": "main.ms", "files": {"main.ms":
+        "class Q {\n  v: int\n  constructor(self, v: int) {\n    self.v = v\n  }\n  fn up(self) -> Self {\n    return Self(self.v + 5)\n  }\n}\nq = Q(1)\nprint (q.up()).v\n"}})
     out.append({"name": "collide:same-function-name-in-two-scopes", "entry": "main.ms", "files": {"main.ms":
         "a = fn() -> int {\n  h = fn() -> int { return 1 }\n  return h()\n}\nb = fn() -> int {\n  h = fn() -> int { return 2 }\n  return h()\n}\nprint a()\nprint b()\n"}})
     return out
